@@ -353,7 +353,68 @@ func C14() *vk.Check {
 	}
 }
 
+// c14IntForms: the encoder vm.NewLine is handed every form of an integer argument the format allows - minimal, padded
+// with leading zero bytes up to four bytes, and the zero-length form of 0 - for every instruction that has one, alone
+// and followed by another instruction; both decoders must read the value back and consume exactly the instruction.
+func c14IntForms(c *vk.Ctx) {
+	if !c.Mine(0) || !c.Want("int-forms") {
+		return
+	}
+	c.Begin("int-forms")
+	vals := []uint32{0, 1, 7, 255, 256, 65535, 65536, 1 << 24, 0xffffffff}
+	for _, op := range []uint16{codec.CATCH, codec.CROAK, codec.LOAD} {
+		for _, n := range vals {
+			min := codec.IntBytes(n)
+			var forms [][]byte
+			forms = append(forms, min)
+			for l := len(min) + 1; l <= 4; l++ {
+				forms = append(forms, append(make([]byte, l-len(min)), min...))
+			}
+			if n == 0 {
+				forms = append(forms, []byte{}, []byte{0, 0, 0, 0})
+			}
+			for _, form := range forms {
+				for _, followed := range []bool{false, true} {
+					var strs []string
+					var nb []uint8
+					want := codec.Ins{Op: op, N: n}
+					switch op {
+					case codec.CATCH:
+						strs, nb, want.S1, want.Mode = []string{"node"}, []uint8{1}, "node", true
+					case codec.CROAK:
+						nb, want.Mode = []uint8{1}, true
+					case codec.LOAD:
+						strs, want.S1 = []string{"sym"}, "sym"
+					}
+					b := vm.NewLine(nil, op, strs, form, nb)
+					prog := []codec.Ins{want}
+					if followed {
+						b = vm.NewLine(b, vm.HALT, nil, nil, nil)
+						prog = append(prog, codec.Ins{Op: codec.HALT})
+					}
+					c.EvalN(1, 1)
+					c.Count("integer_forms_encoded", 1)
+					csd := map[string]interface{}{"op": codec.OpName[op], "n": n, "integer_bytes": fmt.Sprintf("%x", form), "encoded": fmt.Sprintf("%x", b)}
+					hp, class, _ := codec.Decode(b)
+					if class != codec.Valid || !codec.Equal(hp, prog) {
+						c.Violate(fmt.Sprintf("int-form:newline->harness-dec:%s:len%d", codec.OpName[op], len(form)), fmt.Sprintf("%s with the integer %d given as %d byte(s) %x encodes to %x, which reads as %v (%s)", codec.OpName[op], n, len(form), form, b, codec.Strings(hp), class), "int-forms", csd)
+						continue
+					}
+					var vp []codec.Ins
+					var rest []byte
+					var err error
+					pv, _ := vk.Guard(func() { vp, rest, err = codec.VMDecode(b) })
+					if pv != nil || err != nil || len(rest) != 0 || !codec.Equal(vp, prog) {
+						c.Violate(fmt.Sprintf("int-form:newline->vm-dec:%s:len%d", codec.OpName[op], len(form)), fmt.Sprintf("%s with the integer %d given as %x: the VM decoder reads %v (err %v, panic %v, %d bytes left)", codec.OpName[op], n, form, codec.Strings(vp), err, pv, len(rest)), "int-forms", csd)
+					}
+				}
+			}
+		}
+	}
+}
+
 func runC14(c *vk.Ctx) {
+	c14IntForms(c)
 	buf := make([]byte, 0, 64)
 	var intCount int64
 	doInt := func(n uint32, full bool, key string) {
